@@ -85,7 +85,7 @@ def failOf : Outcome → Nat
   | _ => 1
 
 inductive Step : State → Label → State → Prop
-  | offer (s : State) (b : Batch) : Step s (.offer b)
+  | offer (s : State) (b : Batch) (hopen : ¬(s.cfg.persistent = false ∧ 2 ≤ s.phase)) : Step s (.offer b)
       { s with
         queue := s.queue ++ [(b, decide (1 ≤ s.phase))]
         accepted := s.accepted ++ b
@@ -137,7 +137,11 @@ inductive Step : State → Label → State → Prop
 
 theorem fire_step {s s' : State} {l : Label} (hf : fire s l = some s') : Step s l s' := by
   cases l with
-  | offer b => simp only [fire, Option.some.injEq] at hf; subst hf; exact .offer s b
+  | offer b =>
+    simp only [fire] at hf
+    split at hf
+    · simp at hf
+    · next hopen => simp only [Option.some.injEq] at hf; subst hf; exact .offer s b hopen
   | read i =>
     simp only [fire] at hf
     split at hf
@@ -916,5 +920,47 @@ theorem inv_reachable {s : State} (h : Reachable s) : Inv s := by
   induction h with
   | init cfg n w t => exact inv_init cfg n w t
   | step l _ hf ih => exact inv_step ih hf
+
+/-! ## memory queue: empty once a consumer has left (offers are refused after the stop) -/
+
+def MemEmpty (s : State) : Prop :=
+  s.cfg.persistent = false → (∃ c ∈ s.cons, c = .exited) → s.queue = []
+
+theorem memEmpty_step {s s' : State} {l : Label} (h : MemEmpty s) (hl : MemLate s) (hs : Step s l s') : MemEmpty s' := by
+  cases hs with
+  | offer b hopen =>
+    intro hm he
+    exact absurd ⟨hm, (hl hm he).1⟩ hopen
+  | read i b late rest hc hq hg =>
+    intro hm he
+    have := h hm (exited_of_set (by simp) he)
+    rw [hq] at this; simp at this
+  | exit i hc hp hq =>
+    intro hm _
+    cases hq with
+    | inl h1 => have hm' : s.cfg.persistent = false := hm; rw [hm'] at h1; simp at h1
+    | inr h1 => exact h1
+  | sendSync i b hc hb => intro hm he; exact h hm (exited_of_set (by simp) he)
+  | consume i b flush keep hc hb hp => intro hm he; exact h hm (exited_of_set (afterFlush_ne_exited _) he)
+  | spawn i b rest hc hw => intro hm he; exact h hm (exited_of_set (afterFlush_ne_exited _) he)
+  | timerTake b ht hc => exact h
+  | timerSpawn b ht hw => exact h
+  | timerExit ht hp => exact h
+  | expStart f fl hfl hs => exact h
+  | expEndDrop f fl o hfl hs => intro hm he; exact h hm (exited_of_release he)
+  | expEndAgain f fl hfl hs hr hp0 => exact h
+  | expEndKeep f fl hfl hs hr hp => intro hm he; exact h hm (exited_of_release he)
+  | giveUp f fl kept hfl hs hk => intro hm he; exact h hm (exited_of_release he)
+  | shutRetry hp => exact h
+  | shutQueue hp => exact h
+  | join hp hall => exact h
+  | shutBatcher hp hh => exact h
+  | shutSpawn b hh hp hw => exact h
+  | shutWait hp hb => exact h
+
+theorem memEmpty_reachable {s : State} (h : Reachable s) : MemEmpty s := by
+  induction h with
+  | init cfg n w t => intro _ _; simp [init]
+  | step l hr hf ih => exact memEmpty_step ih (inv_reachable hr).late (fire_step hf)
 
 end OtelVerif.C03
